@@ -62,8 +62,11 @@ def make_runner(kind, circuits, workdir):
 
     class Mock(BaseCircuitRunner):
         surplus = 0
+        poison = None          # index of a circuit the backend refuses (used by the TLC edge replay only)
 
         def _run_and_measure(self, circuit, n_samples):
+            if self.poison is not None and ids.get(id(circuit)) == self.poison:
+                raise RuntimeError("backend refused circuit %d" % self.poison)
             log.append((ids.get(id(circuit), -1), n_samples))
             i = ids.get(id(circuit), 0)
             return Measurements([tuple((i + k) % 2 for k in range(circuit.n_qubits))] * (n_samples + self.surplus))
@@ -277,16 +280,19 @@ def history_case(case):
 
 
 LABEL_EVENT = {"RunOk": ["run", 1, 2], "RunBad": ["run", 1, 0], "BatchOk0": ["batch", [], 3], "BatchOk1": ["batch", [2], 2], "BatchOk2": ["batch", [1, 2], [2, 3]],
-               "BatchOk3": ["batch", [2, 0, 5], 2], "BatchBadLength": ["batch", [1, 2], [2]], "BatchBadEntry": ["batch", [1, 2], [3, 0]], "DistOk": ["dist", 2, 2], "DistBad": ["dist", 2, 0]}
+               "BatchOk3": ["batch", [2, 0, 5], 2], "BatchBadLength": ["batch", [1, 2], [2]], "BatchBadEntry": ["batch", [1, 2], [3, 0]], "DistOk": ["dist", 2, 2], "DistBad": ["dist", 2, 0],
+               # the backend refuses circuit 8 (appended for the replay): validation passes, execution fails part-way
+               "RunFail": ["run", 8, 2], "BatchFail0of2": ["batch", [8, 1], 2], "BatchFail2of3": ["batch", [1, 2, 8], [2, 3, 1]]}
 
 
 def tlc_edge_case(case):
     """one edge of the TLC state graph of models/RunnerCounters.tla: replay a shortest path to its source on the real classes
     (MeasurementTrackingBackend around a BaseCircuitRunner mock), take the edge's action, compare all four counters with the target state"""
-    circuits = [mk_circuit(c) for c in CIRCUITS]
+    circuits = [mk_circuit(c) for c in CIRCUITS] + [mk_circuit({"ops": [{"gate": G("X"), "q": [1]}], "n": 2})]
     workdir = tempfile.mkdtemp(prefix="c14t.", dir=os.environ.get("VERIF_SCRATCH", "/dev/shm" if os.path.isdir("/dev/shm") else "/var/tmp"))
     try:
         runner, inner, log, proxy = make_runner("track:mock", circuits, workdir)
+        inner.poison = 8
 
         def fire(label):
             ev = LABEL_EVENT[label]
@@ -300,6 +306,10 @@ def tlc_edge_case(case):
                 return None
             except ValueError as e:
                 return e
+            except RuntimeError as e:
+                if "Fail" in label and "backend refused" in str(e):
+                    return e
+                raise
 
         def counters():
             return {"tc": runner.n_circuits_executed, "tj": runner.n_jobs_executed, "ic": inner.n_circuits_executed, "ij": inner.n_jobs_executed}
@@ -308,6 +318,15 @@ def tlc_edge_case(case):
         if counters() != case["src"]:
             return {"ok": False, "msg": "replaying the model path %s does not reach the model state" % case["path"], "expected": str(case["src"]), "observed": str(counters()), "sig": "tlc:path"}
         exc = fire(case["label"])
+        if "Fail" in case["label"]:
+            # a backend failure: it must surface; the wrapped runner's counters are exactly the model's, the wrapper's must not have decreased
+            now = counters()
+            if exc is None:
+                return {"ok": False, "msg": "model action %s: the backend failed but the call returned normally" % case["label"], "sig": "tlc:failure-swallowed"}
+            if (now["ic"], now["ij"]) != (case["dst"]["ic"], case["dst"]["ij"]) or now["tc"] < case["src"]["tc"] or now["tj"] < case["src"]["tj"]:
+                return {"ok": False, "msg": "model edge %s from %s: after a backend failure the wrapped runner's counters differ from the completed work / a wrapper counter decreased" % (case["label"], case["src"]),
+                        "expected": str(case["dst"]), "observed": str(now), "sig": "tlc:edge-failure"}
+            return {"ok": True, "nt": case["dst"] != case["src"], "ops": len(case["path"]) + 1, "key": jdump(case["dst"]), "out": case["label"]}
         if ("Bad" in case["label"]) != (exc is not None):
             return {"ok": False, "msg": "model action %s: implementation %s" % (case["label"], "raised " + repr(exc) if exc else "accepted the request"), "sig": "tlc:validity"}
         if counters() != case["dst"]:
